@@ -36,7 +36,23 @@ inductive V1 where
   | bool (b : Bool)
   | strs (l : List String)
   | flt (s : String)          -- a float, as its shortest decimal text (rules files only)
-  | tbl                       -- a table found where a scalar was looked for
+  | tbl (kv : List (String × String))   -- a table of strings (`AdditionalAttributes`), or any table found where a scalar was looked for
+  deriving DecidableEq, Repr
+
+/-- Proposed repairs of the converter (patches `0001`…`0005` in `/verif/.cache/C38-fix`), one flag
+per defect.  All `false` = the code as it is.  Flip a flag (oracle: `fixesDefault`) when the
+corresponding patch lands in /repo.
+* `yamlf`      — `yamlf` leaves a string unquoted only if it is `[a-zA-Z][a-zA-Z0-9]*` and not a YAML keyword
+* `items`      — `renderStringarray` writes the user's items through `yamlf`
+* `deprecated` — `ConvertConfig` runs `removeDeprecated` only on v2 input (`General.ConfigurationVersion` present)
+* `renderMap`  — `renderMap` fetches the old key and accepts a decoded table (`map[string]any`)
+* `condValue`  — a condition's nil `Value` is omitted (`yaml:"Value,omitempty"`) instead of written as `null` -/
+structure Fixes where
+  yamlf : Bool := false
+  items : Bool := false
+  deprecated : Bool := false
+  renderMap : Bool := false
+  condValue : Bool := false
   deriving DecidableEq, Repr
 
 /-- How yaml.v3 resolves a text written without quotes. -/
@@ -75,7 +91,7 @@ def parseKey (s : String) : Key :=
 
 def entryVal : Entry → V1
   | .val v => v
-  | .grp _ => .tbl
+  | .grp kv => .tbl (kv.filterMap fun p => match p.2 with | .str s => some (p.1, s) | _ => none)
 
 /-- the loop over `groups` in `_fetch`: the first alternative that *is a table* decides, whether or
 not it contains the name. -/
@@ -101,7 +117,7 @@ def fmtV (x : Ext) : V1 → String
   | .bool false => "false"
   | .flt s => s
   | .strs l => "[" ++ " ".intercalate l ++ "]"
-  | .tbl => "map[…]"
+  | .tbl _ => "map[…]"
 
 /-- `_equivalent`: equality of the `%v` texts (two integers print alike iff they are equal). -/
 def equivalent (x : Ext) : V1 → V1 → Bool
@@ -121,6 +137,23 @@ def isPlainChar (c : Char) : Bool :=
 
 def isPlain (s : String) : Bool := !s.toList.isEmpty && s.toList.all isPlainChar
 
+/-! the repaired rule (`Fixes.yamlf`): `^[a-zA-Z][a-zA-Z0-9]*$` and not a word YAML resolves -/
+def isLetter (c : Char) : Bool := (65 ≤ c.toNat && c.toNat ≤ 90) || (97 ≤ c.toNat && c.toNat ≤ 122)
+def isDigit (c : Char) : Bool := 48 ≤ c.toNat && c.toNat ≤ 57
+def lowerChar (c : Char) : Char := if 65 ≤ c.toNat && c.toNat ≤ 90 then Char.ofNat (c.toNat + 32) else c
+
+def yamlReserved : List (List Char) :=
+  ["true".toList, "false".toList, "null".toList, "yes".toList, "no".toList, "on".toList,
+   "off".toList, "y".toList, "n".toList]
+
+def isPlainFixed (s : String) : Bool :=
+  match s.toList with
+  | [] => false
+  | c :: cs => isLetter c && cs.all (fun d => isLetter d || isDigit d) &&
+      !yamlReserved.contains ((c :: cs).map lowerChar)
+
+def isPlainFx (fx : Fixes) (s : String) : Bool := if fx.yamlf then isPlainFixed s else isPlain s
+
 /-- What ends up to the right of `Key:` in the output. -/
 inductive V2 where
   | text (s : String) (quoted : Bool)   -- a string through `yamlf`
@@ -129,11 +162,13 @@ inductive V2 where
   | dur (ns : Nat)                      -- `time.Duration.String()`
   | mem (q : Nat) (scalar : Nat)        -- `MemorySize.MarshalText`: q followed by a unit read back as ×scalar
   | items (l : List String)             -- `renderStringarray`: one unquoted `- item` line each
+  | qitems (l : List (String × Bool))   -- repaired `renderStringarray`: items through `yamlf` (text, quoted)
+  | table (l : List ((String × Bool) × (String × Bool)))  -- repaired `renderMap`: `key: value` lines through `yamlf`
   | junk                                -- `%v` of something that is not a scalar
   deriving DecidableEq, Repr
 
-def yamlf : V1 → V2
-  | .str s => .text s (!isPlain s)
+def yamlf (fx : Fixes) : V1 → V2
+  | .str s => .text s (!isPlainFx fx s)
   | .int n => .num n
   | .bool b => .bool b
   | _ => .junk
@@ -154,19 +189,19 @@ inductive Out where
 
 /-! ## the template helpers (argument `f` = result of `_fetch data oldkey`) -/
 
-def nonDefaultOnly (x : Ext) (f : Option V1) (dflt : V1) : Out :=
+def nonDefaultOnly (fx : Fixes) (x : Ext) (f : Option V1) (dflt : V1) : Out :=
   match f with
-  | some v => if equivalent x v dflt then .comment else .line (yamlf v)
+  | some v => if equivalent x v dflt then .comment else .line (yamlf fx v)
   | none => .comment
 
-def nonEmptyString (f : Option V1) : Out :=
+def nonEmptyString (fx : Fixes) (f : Option V1) : Out :=
   match f with
-  | some v => if v = .str "" then .comment else .line (yamlf v)
+  | some v => if v = .str "" then .comment else .line (yamlf fx v)
   | none => .comment
 
-def nonZero (f : Option V1) : Out :=
+def nonZero (fx : Fixes) (f : Option V1) : Out :=
   match f with
-  | some v => if isZeroV1 v then .comment else .line (yamlf v)
+  | some v => if isZeroV1 v then .comment else .line (yamlf fx v)
   | none => .comment
 
 def intOf : V1 → Nat
@@ -183,11 +218,11 @@ def memorysize (units : List (Nat × String × Nat)) (f : Option V1) : Out :=
   | some v => if v = .str "" then .comment else .line (marshalMem units (intOf v))
   | none => .comment
 
-def choice (x : Ext) (f : Option V1) (choices : List String) (dflt : String) : Out :=
+def choice (fx : Fixes) (x : Ext) (f : Option V1) (choices : List String) (dflt : String) : Out :=
   match f with
   | some v =>
     if fmtV x v == dflt then .comment
-    else if choices.any (· == fmtV x v) then .line (yamlf v)
+    else if choices.any (· == fmtV x v) then .line (yamlf fx v)
     else .comment                                   -- "### Invalid option!"
   | none => .comment
 
@@ -226,16 +261,28 @@ def conditional (x : Ext) (d : Data) : Cond → Out
     | none => .comment
   | .bad => .panic
 
-/-- `renderMap` looks at `data[key]` (the NEW name, top level) and asserts `map[string]string`,
-which a decoded file never contains: present ⇒ panic. -/
-def renderMap (d : Data) (key : String) : Out :=
-  match AList.get d key with
-  | some _ => .panic
-  | none => .comment
+/-- `renderMap` as it is looks at `data[key]` (the NEW name, top level) and asserts
+`map[string]string`, which a decoded file never contains: present ⇒ panic.  Repaired
+(`Fixes.renderMap`): `_fetch` of the old key; a non-empty table is written `key: value` per entry,
+both through `yamlf`. -/
+def renderMap (fx : Fixes) (d : Data) (key : String) (f : Option V1) : Out :=
+  if fx.renderMap then
+    match f with
+    | some (.tbl kv) =>
+      if kv.isEmpty then .comment
+      else .line (.table (kv.map fun p => ((p.1, !isPlainFx fx p.1), (p.2, !isPlainFx fx p.2))))
+    | _ => .comment
+  else
+    match AList.get d key with
+    | some _ => .panic
+    | none => .comment
 
-def renderStringarray (f : Option V1) : Out :=
+def renderStringarray (fx : Fixes) (f : Option V1) : Out :=
   match f with
-  | some (.strs l) => if l.isEmpty then .comment else .line (.items l)
+  | some (.strs l) =>
+    if l.isEmpty then .comment
+    else if fx.items then .line (.qitems (l.map fun s => (s, !isPlainFx fx s)))
+    else .line (.items l)
   | _ => .comment
 
 /-! ## the conversion table -/
@@ -284,7 +331,7 @@ inductive Eff where
   | dur (ns : Nat)
   | mem (n : Nat)
   | strs (l : List String)
-  | tbl
+  | tbl (kv : List (String × String))
   | invalid                 -- the file is refused (validation error or not YAML)
   | unknown
   deriving DecidableEq, Repr
@@ -299,7 +346,7 @@ def Eff.ofTuple : ValTuple → Eff
     else if tag = "d" then .dur n
     else if tag = "m" then .mem n
     else if tag = "l" then .strs l
-    else if tag = "t" then .tbl
+    else if tag = "t" then .tbl []          -- loader defaults of map fields are empty
     else .unknown
 
 def V1.ofTuple : ValTuple → Option V1
@@ -337,20 +384,20 @@ def argStr : Option V1 → String
   | _ => ""
 
 /-- One template action. -/
-def convertRow (x : Ext) (units : List (Nat × String × Nat)) (d : Data) (r : Row) : Out :=
+def convertRow (fx : Fixes) (x : Ext) (units : List (Nat × String × Nat)) (d : Data) (r : Row) : Out :=
   match r.helper with
   | .nonDefaultOnly =>
     match r.arg with
-    | some a => nonDefaultOnly x (fetch d r.key) a
+    | some a => nonDefaultOnly fx x (fetch d r.key) a
     | none => .panic
-  | .nonEmptyString => nonEmptyString (fetch d r.key)
-  | .nonZero => nonZero (fetch d r.key)
+  | .nonEmptyString => nonEmptyString fx (fetch d r.key)
+  | .nonZero => nonZero fx (fetch d r.key)
   | .secondsToDuration => secondsToDuration (fetch d r.key)
   | .memorysize => memorysize units (fetch d r.key)
-  | .choice => choice x (fetch d r.key) r.choices (argStr r.arg)
+  | .choice => choice fx x (fetch d r.key) r.choices (argStr r.arg)
   | .conditional => conditional x d r.cond
-  | .renderMap => renderMap d r.field
-  | .renderStringarray => renderStringarray (fetch d r.key)
+  | .renderMap => renderMap fx d r.field (fetch d r.key)
+  | .renderStringarray => renderStringarray fx (fetch d r.key)
   | .unknown => .panic                     -- "function not defined": the template does not parse
 
 /-! ## what the v2 loader makes of a line -/
@@ -363,6 +410,7 @@ inductive YV where
   | durtext (ns : Nat)        -- a string that `time.ParseDuration` reads as ns  (`Duration.String`)
   | memtext (n : Nat)         -- a string that `MemorySize.UnmarshalText` reads as n
   | strs (l : List String)
+  | tbl (kv : List (String × String))
   | bad
   deriving DecidableEq, Repr
 
@@ -374,6 +422,10 @@ def yamlOf (x : Ext) : V2 → YV
   | .dur ns => .durtext ns
   | .mem q u => .memtext (q * u)
   | .items l => if l.all (fun s => x.yaml s == .str) then .strs l else .bad
+  | .qitems l => if l.all (fun p => p.2 || x.yaml p.1 == .str) then .strs (l.map (·.1)) else .bad
+  | .table l =>
+    if l.all (fun p => (p.1.2 || x.yaml p.1.1 == .str) && (p.2.2 || x.yaml p.2.1 == .str))
+    then .tbl (l.map fun p => (p.1.1, p.2.1)) else .bad
   | .junk => .bad
 
 /-- `validateDatatype` + decode into the config struct. -/
@@ -386,6 +438,7 @@ def decode (x : Ext) : FType → YV → Eff
   | .duration, .durtext ns => .dur ns
   | .memorysize, .memtext n | .memorysize, .int n => .mem n
   | .stringarray, .strs l => .strs l
+  | .map, .tbl kv => .tbl kv
   | _, _ => .invalid
 
 /-- `defaults.Set` after the load: a zero value is replaced by the struct default (= the loader
@@ -398,6 +451,7 @@ def isZeroEff : FType → Eff → Bool
   | _, .dur n => n == 0
   | _, .mem n => n == 0
   | _, .strs l => l.isEmpty
+  | _, .tbl kv => kv.isEmpty
   | _, _ => false
 
 def applyDefault (ft : FType) (ldef : Eff) (e : Eff) : Eff :=
@@ -420,11 +474,15 @@ inductive FileOut where
   | rows (outs : List Out)
   deriving DecidableEq, Repr
 
-def convertFile (x : Ext) (units : List (Nat × String × Nat)) (T : List Row) (dep : List Key)
+/-- a v2 file declares `General.ConfigurationVersion`; a v1 file never does -/
+def isV2 (d : Data) : Bool :=
+  (fetch d ⟨"General.ConfigurationVersion", ["General"], "ConfigurationVersion"⟩).isSome
+
+def convertFile (fx : Fixes) (x : Ext) (units : List (Nat × String × Nat)) (T : List Row) (dep : List Key)
     (depGroups : List String) (d : Data) : FileOut :=
-  if deprecatedPresent dep depGroups d then .dump
+  if (!fx.deprecated || isV2 d) && deprecatedPresent dep depGroups d then .dump
   else
-    let outs := T.map (convertRow x units d)
+    let outs := T.map (convertRow fx x units d)
     if outs.any (· == .panic) then .aborted else .rows outs
 
 def rowEffs (x : Ext) : List Row → List Out → List Eff
@@ -445,6 +503,7 @@ def expectedBase (x : Ext) : FType → V1 → Eff
   | .duration, .str s => match x.dur s with | some ns => .dur ns | none => .invalid
   | .memorysize, .int n => .mem n
   | .stringarray, .strs l => .strs l
+  | .map, .tbl kv => .tbl kv
   | _, _ => .invalid
 
 /-- a `secondsToDuration` row holds integer seconds in v1; every other row holds the value itself -/
@@ -508,7 +567,7 @@ def convKind (x : Ext) (kind : String) : TV → Option RV
   | .raw (.bool b) => if kind = "bool" ∨ kind = "any" then some (.bool b) else none
   | .raw (.strs l) => if kind = "strs" ∨ kind = "any" then some (.strs l) else none
   | .raw (.flt s) => if kind = "float" ∨ kind = "any" then some (.flt s) else none
-  | .raw .tbl => none
+  | .raw (.tbl _) => none
 
 inductive ROut where
   | field (yaml : String) (v : RV)
@@ -576,5 +635,12 @@ def fieldValue (x : Ext) (T : List SField) (struct : String) (kvs : List (String
   | some f =>
     let hit := kvs.findSome? (pickField x T struct yaml)
     some (applyRDefault f (hit.getD (zeroOfKind f.kind)))
+
+/-- what `ConvertRules` writes for a condition's `Value` (`none` = the key is left out) -/
+def condValueWritten (fx : Fixes) (v : RV) : Option RV :=
+  if fx.condValue && v == .null then none else some v
+
+/-- the rules validator refuses `Value: null` ("field Conditions.Value must not be nil") -/
+def condAccepted (w : Option RV) : Bool := w != some .null
 
 end Refinery.Model.Convert
